@@ -145,6 +145,9 @@ def fresh_cases(tier):
         for rpcid in (None, ""):
             yield {"kind": "fresh", "version": version, "notify": notify, "via": kind, "rpcid": rpcid, "n": 2000}
     yield {"kind": "loads"}
+    # processes forked after the library was imported and used (pre-fork workers)
+    for version, via, warm, children in itertools.product([1.0, 2.0], ["dumps", "dump"], [0, 3], [1, 3]):
+        yield {"kind": "fork", "version": version, "via": via, "rpcid": None, "n": 40, "warm": warm, "children": children}
 
 
 # ---------------------------------------------------------------------------
@@ -315,8 +318,68 @@ def oracle_fault(case):
     return Info(nt=True, classes=["v%.1f" % effver, kind, "data" if data is not None else "no-data"])
 
 
+def _generate_ids(J, cfg, case, n):
+    out = []
+    for _ in range(n):
+        if case["via"] == "dumps":
+            out.append(json.loads(J.dumps([], "m", rpcid=case["rpcid"], version=case["version"], config=cfg))["id"])
+        else:
+            out.append(J.dump([], "m", rpcid=case["rpcid"], version=case["version"], config=cfg)["id"])
+    return out
+
+
+def oracle_fork(case):
+    """Ids generated by forked children and by their parent never coincide"""
+    import os
+    J, Config = _imports()
+    cfg = Config(version=case["version"])
+    _generate_ids(J, cfg, case, case["warm"])
+    pipes = []
+    for _ in range(case["children"]):
+        r, w = os.pipe()
+        pid = os.fork()
+        if pid == 0:
+            status = 0
+            try:
+                os.close(r)
+                data = json.dumps(_generate_ids(J, cfg, case, case["n"])).encode("utf-8")
+                os.write(w, data)
+            except BaseException:
+                status = 3
+            finally:
+                os._exit(status)
+        os.close(w)
+        pipes.append((pid, r))
+    mine = _generate_ids(J, cfg, case, case["n"])
+    groups = [("parent", mine)]
+    for i, (pid, r) in enumerate(pipes):
+        chunks = []
+        while True:
+            b = os.read(r, 65536)
+            if not b:
+                break
+            chunks.append(b)
+        os.close(r)
+        _, st_ = os.waitpid(pid, 0)
+        if st_ != 0 or not chunks:
+            from vlib.core import HarnessError
+            raise HarnessError("forked child failed with status %r" % (st_,))
+        groups.append(("child%d" % i, json.loads(b"".join(chunks).decode("utf-8"))))
+    seen = {}
+    for who, ids in groups:
+        for rid in ids:
+            if not isinstance(rid, str) or not rid:
+                fail("C14/fresh-id", "generated id is %r" % (rid,))
+            if rid in seen:
+                fail("C14/fresh-id:across-fork", "id %r was generated by %s and by %s (processes forked after %d calls)" % (rid, seen[rid], who, case["warm"]))
+            seen[rid] = who
+    return Info(nt=True, classes=["fresh-id-across-fork", "children:%d" % case["children"], "warm" if case["warm"] else "cold"])
+
+
 def oracle_fresh(case):
     J, Config = _imports()
+    if case["kind"] == "fork":
+        return oracle_fork(case)
     if case["kind"] == "loads":
         for cfg in (Config(), Config(use_jsonclass=False), Config(version=1.0)):
             if J.loads("", cfg) is not None:
@@ -406,7 +469,7 @@ SUBS = [
     Sub("fresh-concurrent", oracle_concurrent_fresh, enumerate=concurrent_fresh_cases, shards={"quick": 4, "thorough": 4},
         what="id freshness with two threads inside dumps/dump: every single preemption at a distinct source line (deterministic scheduler)"),
     Sub("fresh", oracle_fresh, enumerate=fresh_cases, shards={"quick": 1, "thorough": 1},
-        what="id freshness over 2000 consecutive calls; loads('') is None"),
+        what="id freshness over 2000 consecutive calls, across reseeding of the global PRNG and across forked processes; loads('') is None"),
 ]
 
 CLAIM = {
